@@ -159,6 +159,25 @@ class Comp(SymVal):
         return f"Comp[{self.kind}]({self.body!r} for {self.bound} in {self.src!r})"
 
 
+class SD(SymVal):
+    """a dict known only through a symbolic base mapping (haskey/dval on ``base``) plus the stores
+    made on this path: updates = [(key SymVal, value SymVal)], latest last. Keys are compared by
+    term equality (sound for the str / class keys used by the generator's registries)."""
+
+    __slots__ = ("base", "updates", "ident")
+
+    def __init__(self, base, updates=(), ident=None):
+        self.base = base  # z3 term
+        self.updates = list(updates)
+        self.ident = ident
+
+    def store(self, k, v):
+        return SD(self.base, self.updates + [(k, v)], self.ident)
+
+    def __repr__(self):
+        return f"SD({self.base} + {self.updates})"
+
+
 class KeySet(SymVal):
     """set(d.keys()) minus a set of constants"""
 
@@ -425,6 +444,8 @@ class Engine:
             if fa and fb:
                 raise NotInSubset("identity of two fresh objects")
             return z3.BoolVal(False)
+        if isinstance(a, Ob) and isinstance(b, Ob):
+            return z3.BoolVal(_const_eq(a.o, b.o))
         if isinstance(a, Ite):
             return z3.If(a.c, self.is_(a.a, b), self.is_(a.b, b))
         if isinstance(b, Ite):
@@ -785,11 +806,12 @@ class Executor:
             s2.ghosts = s2.ghosts + [g for g in ctx.ghosts_before(cond)]
             bad.append((s2, exc))
             prev.append(cond)
-        s1 = st.clone()
-        s1.pc = s1.pc + [z3.Not(p) for p in prev]
-        s1.hyps = s1.hyps + ctx.hyps
-        s1.ghosts = s1.ghosts + ctx.ghosts
-        oks.append((s1, v))
+        if not any(z3.is_true(p) for p in prev):  # otherwise the expression always raises
+            s1 = st.clone()
+            s1.pc = s1.pc + [z3.Not(p) for p in prev]
+            s1.hyps = s1.hyps + ctx.hyps
+            s1.ghosts = s1.ghosts + ctx.ghosts
+            oks.append((s1, v))
         return oks, bad
 
     def exec_stmt(self, s, st):
@@ -825,6 +847,19 @@ class Executor:
         return [(a, ("return", v)) for a, v in oks] + [(b, ("raise", e)) for b, e in bad]
 
     def st_Assign(self, s, st):
+        if (len(s.targets) == 1 and isinstance(s.targets[0], ast.Subscript) and isinstance(s.targets[0].value, ast.Name)
+                and isinstance(st.env.get(s.targets[0].value.id), SD)):
+            # registry store: the key expression may raise (e.g. variant.__dict__['field'])
+            tgt = s.targets[0]
+            koks, kbad = self._fork_eval(tgt.slice, st)
+            out = [(b, ("raise", e)) for b, e in kbad]
+            for a, kv in koks:
+                voks, vbad = self._fork_eval(s.value, a)
+                out += [(b, ("raise", e)) for b, e in vbad]
+                for a2, vv in voks:
+                    a2.env[tgt.value.id] = a2.env[tgt.value.id].store(kv, vv)
+                    out.append((a2, None))
+            return out
         oks, bad = self._fork_eval(s.value, st)
         out = [(b, ("raise", e)) for b, e in bad]
         for a0, v0 in oks:
@@ -857,8 +892,14 @@ class Executor:
             if isinstance(base, LD) and isinstance(key, ast.Constant):
                 st.env[tgt.value.id] = base.set(key.value, v)
                 return [st]
+            if isinstance(base, SD):
+                kv = self.eval_pure(key, st)
+                st.env[tgt.value.id] = base.store(kv, v)
+                return [st]
             raise NotInSubset("subscript store on a non-local container", tgt)
         if isinstance(tgt, ast.Tuple):
+            if isinstance(v, Ob) and isinstance(v.o, (tuple, list)) and len(v.o) == len(tgt.elts):
+                v = LL("tuple", [Ob(x) for x in v.o])
             if isinstance(v, LL) and len(v.items) == len(tgt.elts):
                 for t, x in zip(tgt.elts, v.items):
                     self.assign(t, x, st)
@@ -983,6 +1024,50 @@ class Executor:
             return z3.BoolVal(any(issubclass(exc.cls.o, c) for c in classes))
         t = self.eng.typeof(exc.term)
         return z3.Or(*[self.eng.issub(t, self.eng.const(c)) for c in classes])
+
+    def st_Continue(self, s, st):
+        return [(st, ("continue",))]
+
+    def st_Break(self, s, st):
+        return [(st, ("break",))]
+
+    def st_For(self, s, st):
+        """for-loops over an iterable of known, concrete length are unrolled completely (DESIGN
+        2.5 rule 1): tuples/lists of concrete objects, or a display whose items are known"""
+        oks, bad = self._fork_eval(s.iter, st)
+        out = [(b, ("raise", e)) for b, e in bad]
+        for a, it in oks:
+            if isinstance(it, LL):
+                items = list(it.items)
+            elif isinstance(it, Ob) and isinstance(it.o, (list, tuple)):
+                items = [Ob(x) for x in it.o]
+            else:
+                raise NotInSubset("for-loop over a symbolic iterable", s)
+            states = [a]
+            broke = []
+            for item in items:
+                nxt = []
+                for cur in states:
+                    cur = cur.clone()
+                    for t in self.assign(s.target, item, cur):
+                        for (c2, sig) in self.exec_block(s.body, t):
+                            if sig is None or sig[0] == "continue":
+                                nxt.append(c2)
+                            elif sig[0] == "break":
+                                broke.append(c2)
+                            else:
+                                out.append((c2, sig))
+                states = nxt
+                if len(states) + len(out) > _MAXPATHS:
+                    raise NotInSubset("path explosion in loop", s)
+            for cur in states:
+                if s.orelse:
+                    out.extend(self.exec_block(s.orelse, cur))
+                else:
+                    out.append((cur, None))
+            for cur in broke:
+                out.append((cur, None))
+        return out
 
     def st_FunctionDef(self, s, st):
         st.env[s.name] = Ob(("closure", s))
@@ -1248,6 +1333,8 @@ class Executor:
             key = ("slice",) + tuple(parts)
             return self.opaque_call(key, f"slice[{parts[0]}:{parts[1]}:{parts[2]}]", [base], [], ctx, node)
         idx = self.eval(sl, st, ctx)
+        if isinstance(base, SD):
+            return self.sd_lookup(base, idx, ctx)
         if isinstance(base, LD) and isinstance(idx, Ob):
             v = base.get(idx.o)
             if v is None:
@@ -1274,6 +1361,22 @@ class Executor:
             if r is not None:
                 return r
         return self.opaque_call(("getitem",), "getitem", [base, idx], [], ctx, node)
+
+    def sd_lookup(self, sd, idx, ctx):
+        eng = self.eng
+        k = eng.term(idx)
+        val = None
+        present = eng.haskey(sd.base, k)
+        base_val = Tm(eng.dval(sd.base, k))
+        conds = []
+        for (uk, uv) in sd.updates:
+            conds.append((k == eng.term(uk), uv))
+        anyupd = z3.Or(*[c for c, _ in conds]) if conds else z3.BoolVal(False)
+        ctx.add_raise(z3.And(z3.Not(anyupd), z3.Not(present)), Exc(Ob(KeyError), [idx], origin="registry lookup"))
+        val = base_val
+        for c, uv in conds:  # later stores win
+            val = Ite(c, uv, val)
+        return val
 
     # ---- comprehensions
     def ev_ListComp(self, node, st, ctx):
@@ -1400,6 +1503,9 @@ class Executor:
             r = h(self, recv, name, args, kw, node, st, ctx)
             if r is not None:
                 return r
+        if isinstance(recv, Ob):
+            # a concrete receiver reached through a conditional value: ordinary attribute call
+            return self.call(self.getattr(recv, name, node, st, ctx), args, kw, node, st, ctx)
         if name in self.inline and not isinstance(recv, (LD, LL, Comp, KeySet)):
             fdef, ns, binds = self.inline[name]
             params = [a.arg for a in fdef.args.posonlyargs + fdef.args.args]
